@@ -57,7 +57,7 @@ theorem tree_sorted_step (s : AnState) (op : Op) (h : TreeSorted s.tree) : TreeS
       | exact h
       | exact loadType_sorted _ _ h
       | exact treeIns_sorted (loadType_sorted _ _ h) (by assumption)
-  | writeann t annref text => simp only [step]; split <;> exact h
+  | writeann t annref text => simp only [step]; split; exact h; split <;> exact h
   | readann t annref maxlen => simp only [step]; split; exact h; split <;> exact h
   | annlen t annref => simp only [step]; split; exact h; split <;> exact h
   | numann t etag eref => simp only [step]; split; exact h; exact loadType_sorted _ _ h
@@ -110,17 +110,17 @@ example : (step { tree := [(AN_CREATE_KEY 0 3, ⟨3, 720, 1⟩), (AN_CREATE_KEY 
     `ANreadann` (with a large enough buffer) and `ANannlen` report. -/
 theorem rewrite_keeps_identity (s : AnState) (t annref tag : Nat) (e : Entry) (text : Bytes)
     (ht : tagOfType t = some tag) (hf : treeFind (AN_CREATE_KEY t annref) s.tree = some e)
-    (h1 : e.elmtag < 65536) (h2 : e.elmref < 65536) :
+    (h1 : e.elmtag < 65536) (h2 : e.elmref < 65536) (hne : text ≠ []) :
     let s' := (step s (.writeann t annref text)).1
     s'.tree = s.tree ∧ s'.loaded = s.loaded ∧
     (∀ k, k ≠ (tag, annref) → elemLook k s'.elems = elemLook k s.elems) ∧
     (elemLook (tag, annref) s'.elems).bind (decodeAnn t (tag, annref)) =
       some (if isDataType t then (e.elmtag, e.elmref) else (tag, annref), text) ∧
     (step s' (.annlen t annref)).2 = .int text.length ∧
-    ∀ maxlen, text.length < maxlen → (step s' (.readann t annref maxlen)).2 = .read text (text.length + if isLabelType t then 1 else 0) ∨ text = [] := by
+    ∀ maxlen, text.length < maxlen → (step s' (.readann t annref maxlen)).2 = .read text (text.length + if isLabelType t then 1 else 0) := by
   have hs : (step s (.writeann t annref text)).1 =
       { s with elems := elemPut (tag, annref) (encodeAnn t (e.elmtag, e.elmref) text) s.elems } := by
-    simp [step, ht, hf]
+    simp [step, ht, hf, hne]
   simp only
   rw [hs]
   refine ⟨rfl, rfl, ?_, ?_, ?_, ?_⟩
@@ -133,9 +133,7 @@ theorem rewrite_keeps_identity (s : AnState) (t annref tag : Nat) (e : Entry) (t
     · simp [hd, u16]; omega
     · simp [hd]
   · intro maxlen hm
-    by_cases he : text = []
-    · right; exact he
-    · left
+    · have he := hne
       have hpos : 0 < text.length := List.length_pos_iff.mpr he
       simp only [step, ht, elemLook_elemPut, if_true, encodeAnn, readSpan]
       by_cases hd : isDataType t = true
@@ -198,12 +196,15 @@ theorem create_first_sees_existing :
     (step s .fileinfo).2 = .nats [0, 0, 3, 0] ∧ (step s (.annlist 0 1000 5)).2 = .nats [3, 2, 1] := by
   decide
 
-/-! ## a behaviour of the code as it is that stays recorded as a finding -/
+/-! ## the former finding `an-write-empty`, repaired by /repo 3d2a8cf -/
 
-/-- `ANwriteann` with an empty text reports failure although the element (with its target prefix) has been created -/
-theorem write_empty_fails_but_writes :
+/-- `ANwriteann` with an empty text fails and changes nothing: no element (not even the 4-byte target prefix) appears -/
+theorem write_empty_refused (s : AnState) (t annref : Nat) : step s (.writeann t annref []) = (s, .fail) := by
+  simp [step]
+
+example :
     let s := (step (step {} .fileinfo).1 (.create 0 1000 5 1)).1
-    (step s (.writeann 0 1 [])).2 = .fail ∧ (step (step s (.writeann 0 1 [])).1 (.rawelem 104 1)).2 = .bytes [3, 232, 0, 5] := by
+    (step s (.writeann 0 1 [])).2 = .fail ∧ (step (step s (.writeann 0 1 [])).1 (.rawelem 104 1)).2 = .fail := by
   decide
 
 end H4.Props.C11
